@@ -187,6 +187,18 @@ def main() -> None:
             info["observe_error"] = repr(e)
         return res
 
+    orig_load_graph = build.load_graph
+
+    def recording_load_graph(*a, **k):
+        g = orig_load_graph(*a, **k)
+        try:    # modules that start this run without a usable cache entry (meta missing or abandoned)
+            if "nometa" not in info:
+                info["nometa"] = sorted(i for i, st in g.items() if st.meta is None)
+        except Exception as e:
+            info["observe_error"] = repr(e)
+        return g
+    build.load_graph = recording_load_graph
+
     sched_log = spec.get("sched_log")
     if sched_log:
         _instrument_coordinator(build, sched_log, spec.get("sched_seed"))
